@@ -280,6 +280,10 @@ def judge_exchange(case, obs, responses, prop="C03"):
                 # not answered while another client's connection was stalled mid-request
                 fail_spec("starved_by_stalled_client", dict(where, evidence=r.get("evidence")))
                 continue
+            if is_raw(rq) and r.get("no_response") and r.get("server_not_accepting"):
+                # the server has stopped accepting connections altogether
+                fail_spec("no_response", dict(where, evidence=r.get("evidence")))
+                continue
             if is_raw(rq):
                 if r.get("refused"):
                     fail_spec("refused", where)
@@ -353,7 +357,13 @@ def judge_exchange(case, obs, responses, prop="C03"):
         if leftovers:
             d = {"phase": pi, "unexpected_calls": leftovers[:3]}
             fail_spec("calls", d) if prop == "C10" else fail_agree(d)
-        if po.get("stderr_tracebacks"):
+        # (the stdlib may report a reset after the phase that caused it is over: the allowance is cumulative)
+        n_abort = sum(1 for ph_ in case["phases"][:pi + 1] for rq_ in ph_ if rq_.get("abort")) - sum(
+            (q.get("stderr_tracebacks") or 0) for q in obs["phases"][:pi])
+        if po.get("stderr_tracebacks") and n_abort > 0 and po["stderr_tracebacks"] <= n_abort and all(
+                "ConnectionResetError" in str(x) or "BrokenPipeError" in str(x) for x in (po.get("stderr_samples") or [])):
+            pass    # the stdlib's report of a connection that the CLIENT reset before its request was complete
+        elif po.get("stderr_tracebacks"):
             d = {"phase": pi, "stderr_tracebacks": po["stderr_tracebacks"], "samples": po.get("stderr_samples")}
             fail_spec("c09_unhandled_in_thread", d) if prop == "C09" else fail_agree(d)
         n_exc = len(po.get("exc_logs", []))
